@@ -80,8 +80,17 @@ func (ls ListSpec) Build() *astisub.Subtitles {
 		s.Regions[id] = &astisub.Region{ID: id, InlineStyle: regionAttrs(p)}
 	}
 	for k := 0; k < 2; k++ {
-		it := &astisub.Item{StartAt: time.Duration(k+1) * time.Second, EndAt: time.Duration(k+2) * time.Second, InlineStyle: &astisub.StyleAttributes{},
-			Lines: []astisub.Line{{Items: []astisub.LineItem{{Text: fmt.Sprintf("cue %d", k)}}}}}
+		// content a normalising writer would be tempted to rewrite in place: outer blanks, characters every format
+		// escapes, a composed letter, several runs; every slice has spare capacity (an in-place append shows there)
+		runs := make([]astisub.LineItem, 0, 4)
+		runs = append(runs, astisub.LineItem{Text: fmt.Sprintf(" cue %d a&b<c ", k), InlineStyle: &astisub.StyleAttributes{SRTBold: true, WebVTTTags: []astisub.WebVTTTag{{Name: "b"}}}},
+			astisub.LineItem{Text: "\u00e9 x ", StartAt: time.Duration(k+1)*time.Second + 500*time.Millisecond})
+		lines := make([]astisub.Line, 0, 3)
+		lines = append(lines, astisub.Line{VoiceName: "v", Items: runs}, astisub.Line{Items: []astisub.LineItem{{Text: "second"}}})
+		comments := make([]string, 0, 2)
+		comments = append(comments, " note ")
+		it := &astisub.Item{StartAt: time.Duration(k+1) * time.Second, EndAt: time.Duration(k+2) * time.Second, InlineStyle: &astisub.StyleAttributes{}, Comments: comments,
+			Lines: lines}
 		if len(ls.Styles) > k {
 			it.Style = s.Styles[fmt.Sprintf("s%d", k)]
 		}
